@@ -7,8 +7,9 @@
 (* state of this machine.                                                   *)
 (*                                                                          *)
 (* The ORDERING guards of the actions are the content of the specification: *)
-(*   G1 an operation object is persisted only after a view object           *)
-(*   G2 a head is added only for an operation whose object is durable       *)
+(*   G2 a head is added only for an operation whose object AND whose view   *)
+(*      object are durable (the order in which the two objects themselves   *)
+(*      are written does not matter: they are unreferenced until then)      *)
 (*   G3 a head is removed only when a strict descendant is among the heads  *)
 (*   G4 working-copy files are touched only when every operation written    *)
 (*      by this command has been published                                  *)
@@ -18,19 +19,20 @@
 (* validation checks that the real effect sequences respect them.           *)
 EXTENDS Naturals, Sequences, FiniteSets
 
-CONSTANTS Guards         \* the ordering guards in force (all of G1..G5 in the real spec;
+CONSTANTS Guards         \* the ordering guards in force (all of G2..G5 in the real spec;
                          \* negative configs drop one to show the invariants depend on it)
 
 VARIABLES par,           \* function: operation id -> set of parent ids (all operations of the case)
+          viewOf,        \* function: operation id -> id of its view object
           objs,          \* set of durable operation ids (object file complete)
-          views,         \* number of view objects persisted and not yet consumed by an operation
+          views,         \* set of durable view ids
           heads,         \* op-heads directory
           startHeads,    \* heads when the command started
           written,       \* operations persisted by this command
           wcPhase,       \* "clean" | "updating" | "treestate"
           wcStaleOk      \* ghost: a stale / partially updated working copy is a legal outcome now
 
-vars == <<par, objs, views, heads, startHeads, written, wcPhase, wcStaleOk>>
+vars == <<par, viewOf, objs, views, heads, startHeads, written, wcPhase, wcStaleOk>>
 
 RECURSIVE Anc(_)
 Anc(S) == LET P == UNION {par[x] : x \in S \cap DOMAIN par} IN
@@ -38,40 +40,38 @@ Anc(S) == LET P == UNION {par[x] : x \in S \cap DOMAIN par} IN
 StrictAnc(x) == Anc({x}) \ {x}
 HeadsOf(S) == {x \in S : ~\E y \in S : y # x /\ x \in Anc({y})}
 
-PersistView ==
-  /\ views' = views + 1
-  /\ UNCHANGED <<par, objs, heads, startHeads, written, wcPhase, wcStaleOk>>
+PersistView(v) ==
+  /\ views' = views \cup {v}
+  /\ UNCHANGED <<par, viewOf, objs, heads, startHeads, written, wcPhase, wcStaleOk>>
 
 PersistOp(o) ==
-  /\ ("G1" \in Guards => views >= 1)                      \* G1
-  /\ views' = 0
   /\ objs' = objs \cup {o} /\ written' = written \cup {o}
-  /\ UNCHANGED <<par, heads, startHeads, wcPhase, wcStaleOk>>
+  /\ UNCHANGED <<par, viewOf, views, heads, startHeads, wcPhase, wcStaleOk>>
 
 PersistOther == UNCHANGED vars        \* store / index objects: content-addressed, no ordering claim
 
 HeadAdd(o) ==
-  /\ ("G2" \in Guards => o \in objs)                      \* G2
+  /\ ("G2" \in Guards => o \in objs /\ o \in DOMAIN viewOf /\ viewOf[o] \in views)   \* G2
   /\ heads' = heads \cup {o}
   \* once a new operation is published the working copy may legitimately be behind it
   /\ wcStaleOk' = TRUE
-  /\ UNCHANGED <<par, objs, views, startHeads, written, wcPhase>>
+  /\ UNCHANGED <<par, viewOf, objs, views, startHeads, written, wcPhase>>
 
 HeadRemove(o) ==
   /\ ("G3" \in Guards => (o \in heads => \E h \in heads : o \in StrictAnc(h))) \* G3
   /\ heads' = heads \ {o}
-  /\ UNCHANGED <<par, objs, views, startHeads, written, wcPhase, wcStaleOk>>
+  /\ UNCHANGED <<par, viewOf, objs, views, startHeads, written, wcPhase, wcStaleOk>>
 
 WcTouch ==
   /\ ("G4" \in Guards => written \subseteq Anc(heads))    \* G4
   /\ ("G5" \in Guards => wcPhase \in {"clean", "updating"}) \* G5: not between tree_state and checkout
   /\ wcPhase' = "updating"
   /\ wcStaleOk' = TRUE
-  /\ UNCHANGED <<par, objs, views, heads, startHeads, written>>
+  /\ UNCHANGED <<par, viewOf, objs, views, heads, startHeads, written>>
 
 SaveTreeState ==
   /\ wcPhase' = IF wcPhase = "updating" THEN "treestate" ELSE wcPhase
-  /\ UNCHANGED <<par, objs, views, heads, startHeads, written, wcStaleOk>>
+  /\ UNCHANGED <<par, viewOf, objs, views, heads, startHeads, written, wcStaleOk>>
 
 SaveCheckout ==
   /\ ("G5" \in Guards => wcPhase # "updating")            \* G5
@@ -79,12 +79,12 @@ SaveCheckout ==
   \* the working copy now records the operation it is at; it is fresh again
   \* unless further operations get published later
   /\ wcStaleOk' = FALSE
-  /\ UNCHANGED <<par, objs, views, heads, startHeads, written>>
+  /\ UNCHANGED <<par, viewOf, objs, views, heads, startHeads, written>>
 
 ----------------------------------------------------------------------------
 (* crash invariants: hold in every state, i.e. whatever the kill point *)
 
-Loadable == heads # {} /\ heads \subseteq objs
+Loadable == heads # {} /\ heads \subseteq objs /\ \A h \in heads : h \in DOMAIN viewOf /\ viewOf[h] \in views
 NoCommittedOpLost == \A o \in startHeads : \E h \in heads : o \in Anc({h})
 (* the state is before or after (an operation of) the command, never a fork *)
 BeforeOrAfter == Cardinality(HeadsOf(heads)) = 1
